@@ -44,6 +44,8 @@ FILLERS = {
     "7 MOD .4": "7 MOD .4", "7 MOD 0": "7 MOD 0", ".4": ".4", "1 / .0000001": "1 / .0000001", "2 ^ 2": "2 ^ 2", "1 \\ 2": "1 \\ 2", "N% AND": "N% AND",
     "Arr(1 TO 2)": "Arr(1 TO 2)", "1 TO": "1 TO", "(1 TO 2)": "(1 TO 2)", "N% * 99999": "N% * 99999", "32767 + N%": "32767 + N%",
     "8": "8", "80": "80", "25": "25", "F$": "F$", "A": "A", "Z": "Z", "X": "X", "Qq": "Qq", "Pq%": "Pq%", "\"T.TXT\"": '"T.TXT"', "\"##\"": '"##"',
+    "\"abc\"+Chr$(200)": '"abc" + Chr$(200) + "z"', "Chr$(200)+\"abcd\"": 'Chr$(200) + "abcd"', "String$(5,200)": "String$(5, 200)",
+    "\"aé\"": '"a\u00e9bcd"',
     "": "", " ": " ", ":": ":", "'": "'", ",": ",", ";": ";", "=": "=", "1 TO 2": "1 TO 2", "-": "-", "- -1": "- -1", "(N%": "(N%", "N%)": "N%)",
 }
 
@@ -71,6 +73,9 @@ TEMPLATES = {
     "locate": ["LOCATE {1}, {2}"], "color": ["COLOR {1}, {2}"], "width": ["WIDTH {1}, {2}"], "view-print": ["VIEW PRINT {1} TO {2}"], "exit": ["EXIT {1}"],
     "defint": ["DEFINT {1}-{2}"], "member-assign": ["{1}.{2} = 1"], "elem-assign": ["{1}({2}) = 1"], "elem-member-assign": ["{1}({2}).X = 1"],
     "elem-print": ["PRINT {1}({2})"], "elem-member-print": ["PRINT {1}({2}).X"], "two-subscripts": ["N% = {1}({2}, {2})"], "swap-assign": ["{1} = {1} + {2}"],
+    "fixed-member": ["Rec.S = {1}", "PRINT Rec.S; LEN(Rec.S)"], "fixed-var": ["DIM Fx AS STRING * 3", "Fx = {1}", "PRINT Fx; LEN(Fx)"],
+    "fixed-lset": ['OPEN "R.DAT" FOR RANDOM AS #1 LEN = 4', "FIELD #1, 4 AS F$", "LSET F$ = {1}", "PRINT F$; LEN(F$)"],
+    "using-field": ['PRINT USING "\\ \\"; {1}'], "using-bang": ['PRINT USING "!"; {1}'], "fixed-input": ["INPUT Rec.S", "PRINT Rec.S; {1}"],
     "byref-arg": ["MySub {1}"], "byref-fn-arg": ["PRINT MyFn%({1})"], "nested": ["PRINT LEN(STR$(({1}))) + {2}"],
 }
 DECL_TEMPLATES = {
